@@ -4,6 +4,7 @@ import (
 	"fmt"
 	"reflect"
 	"sort"
+	"strconv"
 	"strings"
 
 	"github.com/freeconf/yang/meta"
@@ -168,6 +169,17 @@ func inspectVal(defs []meta.Definition, v reflect.Value) *model.Tree {
 			if lf, ok := d.(meta.Leafable); ok && lf.Type().Format() == val.FmtAny {
 				t.Leaves[id] = model.Leaf{Canon: model.CanonAny(fd.Interface())}
 				continue
+			}
+			if lf, ok := d.(meta.Leafable); ok && lf.Type().Format() == val.FmtUInt8List {
+				if b, isBytes := fd.Interface().([]byte); isBytes {
+					// a list of uint8 is a Go []byte too: numbers here, not octets
+					parts := make([]string, len(b))
+					for i, x := range b {
+						parts[i] = strconv.Itoa(int(x))
+					}
+					t.Leaves[id] = model.Leaf{Canon: "[" + strings.Join(parts, ",") + "]"}
+					continue
+				}
 			}
 			t.Leaves[id] = model.Leaf{Canon: model.CanonRaw(fd.Interface())}
 		}
